@@ -290,6 +290,7 @@ type World struct {
 	failRestore  bool           // the next Backend.Restore fails
 	onDisconnect map[int]func() // run when the broker has read a DISCONNECT from that connection, before it acts on it
 	lastHeard    map[int]time.Time
+	stallOnly    map[int]broker.LogEvent // Stall restricted to one log event
 	noModel      bool           // monitors only: the model is not asked (lines are written as comments)
 	longCase     bool           // a very long, regular script: monitor hits carry the head and the tail of the trace only
 	concurrent   bool           // stimuli were fired concurrently: order-sensitive monitors are switched off
@@ -317,6 +318,9 @@ func newWorld(o *out.W, prop string, window, queue int, creds map[string]string)
 		}
 		w.mu.Lock()
 		ch := w.stalled[w.wb.connOf(c)]
+		if only, ok := w.stallOnly[w.wb.connOf(c)]; ok && only != ev {
+			ch = nil
+		}
 		var hook func()
 		if _, isDisc := pkt.(*packet.Disconnect); isDisc && ev == broker.PacketReceived {
 			hook = w.onDisconnect[w.wb.connOf(c)]
@@ -438,10 +442,23 @@ func (w *World) Stall(c int) {
 	w.o.Count("stim/stall")
 }
 
+// StallAt holds up only the goroutine of connection c that reports event ev next (e.g. the dequeuer at the end of a
+// delivery, MessageForwarded); the connection's other goroutines keep running
+func (w *World) StallAt(c int, ev broker.LogEvent) {
+	w.mu.Lock()
+	if w.stallOnly == nil {
+		w.stallOnly = map[int]broker.LogEvent{}
+	}
+	w.stallOnly[c] = ev
+	w.mu.Unlock()
+	w.Stall(c)
+}
+
 func (w *World) Unstall(c int) {
 	w.mu.Lock()
 	ch := w.stalled[c]
 	delete(w.stalled, c)
+	delete(w.stallOnly, c)
 	w.mu.Unlock()
 	if ch == nil {
 		return
